@@ -36,9 +36,10 @@ func (a *Addressing) ExtractMailbox(address string) (string, error) {
 		// Nothing but a +extension.
 		return "", errors.New("mailbox name cannot be empty")
 	}
-	if local[len(local)-1] == '.' {
-		// "name.+ext": the remaining name could not be looked up again.
-		return "", errors.New("mailbox name cannot end with a period")
+	if local[0] == '.' || local[len(local)-1] == '.' || strings.Contains(local, "..") {
+		// "name.+ext", or periods smuggled in by quoting: the resulting name could not be
+		// looked up again.
+		return "", errors.New("mailbox name cannot start or end with a period, or contain two in a row")
 	}
 
 	if a.Config.MailboxNaming == config.LocalNaming {
